@@ -860,6 +860,7 @@ def _judge(case, obs, calls, raised):
     stats = {'invocations_from_python': len(case['entries']), 'walkers': calls['n'],
              'call_depth_%d' % min(calls['max'], 8): 1, 'callables': len(case['callables']),
              'levels_%d' % (1 + max(c['level'] for c in case['callables'])): 1}
+    stats['family_' + case.get('family', 'graph')] = 1
     for c in case['callables']:
         stats['callable_' + c['kind']] = stats.get('callable_' + c['kind'], 0) + 1
         if c.get('recursive'):
